@@ -314,6 +314,31 @@ def viterbi(ctx):
         ctx.ob("VITERBI", "search_min_node|keeps-minimum", oku, fa.loc(upd[0]) if upd else fn_loc(crate, p),
                "the running minimum is replaced exactly when predecessor.min_cost + connection "
                "cost is not larger" if oku else "minimum selection broken: " + why)
+        # the running minimum starts at the largest cost, so that the first predecessor is always
+        # taken (a smaller start value hides every predecessor that costs more than it)
+        if upd:
+            b, t, e = upd
+            other = e[3] if (e[2][0] == "binop" and e[2][1] == "Add") else e[2]
+            pl = None
+            o = fa.origin(t["op"])
+            if o[0] == "rv" and o[1]["k"] == "binop":
+                cand = o[1]["b"] if (e[2][0] == "binop" and e[2][1] == "Add") else o[1]["a"]
+                r = fa.origin(cand)
+                if r[0] == "place" and r[1].root[0] == "local" and not r[1].proj:
+                    pl = r[1].root[1]
+            inits = []
+            if pl is not None:
+                for d in fa.defs().get(pl, []):
+                    if d[2] == "assign" and d[3]["k"] == "use":
+                        k = op_const(d[3]["op"])
+                        if k is not None and "int" in k:
+                            inits.append(k["int"])
+            oki = inits == [2147483647]
+            ctx.ob("VITERBI", "search_min_node|minimum-starts-at-max", oki, fn_loc(crate, p),
+                   "the running minimum starts at i32::MAX" if oki else
+                   "the running minimum starts at %s, not at i32::MAX: predecessors whose path cost "
+                   "is larger than that are never selected and the node keeps an invalid "
+                   "back-pointer" % (inits or "an unrecognised value"))
 
 
 def traceback(ctx):
